@@ -15,7 +15,7 @@ import ast
 
 from ..core import AnalysisError, finish, unparse
 from ..dataflow import Flow, chain, call_name
-from ..terms import Terms, subterms, owner_terms, unsite, match, V, ANY, \
+from ..terms import Terms, subterms, owner_terms, plain, match, V, ANY, \
     show, alternatives
 from ..util import calls_in, qual, formals, returns_of, has_fact
 
@@ -232,7 +232,7 @@ def _core_range(T, fn):
             lo, hi = [view.term(a, n, env) for a in c.args]
             if lo[0] == "attr" and lo[2] == "start" and hi[0] == "attr" \
                     and hi[2] == "stop" and lo[1] == hi[1]:
-                found.append((c, unsite(lo[1])))
+                found.append((c, plain(lo[1])))
     if len(found) != 1:
         raise AnalysisError("%s: core range not found" % fn.name)
     return found[0]
@@ -298,13 +298,14 @@ def r3_cores(program, rep):
                 continue
             okt = True
             for alt in alternatives(TR.term(st.value, n)):
+                alt = plain(alt)
                 m = match(("comp", ("call", ("global", V("f")), V("args"),
                                     V("kw")), 0), alt)
                 if m is None or m["f"] not in ("ner_net",
                                                "avoid_dead_links"):
                     okt = False
                     detail = show(alt)
-                elif m["f"] == "ner_net" and (not m["args"] or unsite(
+                elif m["f"] == "ner_net" and (not m["args"] or plain(
                         m["args"][0]) != ("item", P("placements"),
                                           ("attr", NET, "source"))):
                     okt = False
@@ -381,7 +382,7 @@ def r4_default_predicates(program, rep):
         for t, p in facts:
             for st in subterms(t):
                 if st[0] == "attr" and st[2] in ("route", "sources"):
-                    ents.add(st[1])
+                    ents.add(plain(st[1]))
         best = set(STRAIGHT)
         for e in ents:
             miss = set(STRAIGHT) - straight_through(facts, e)
